@@ -258,7 +258,7 @@ def _update_A(env, n, du, opts, normalize=True, subtract_E=False, precompute=Fal
         opts['ncv'] = env._temp['expmv_ncv'][n]
     A = env.bra.pre_1site(n, precompute=precompute)
     if subtract_E:
-        E0 = vdot(A, env.Heff1(A, n))
+        E0 = vdot(A, env.Heff1(A, n)) / vdot(A, A)
         f = lambda x: env.Heff1(x, n) - E0 * x
     else:
         f = lambda x: env.Heff1(x, n)
@@ -274,7 +274,7 @@ def _update_C(env, du, opts, normalize=True, subtract_E=False):
         if bd in env._temp['expmv_ncv']:
             opts['ncv'] = env._temp['expmv_ncv'][bd]
         if subtract_E:
-            E0 = vdot(env.bra[bd], env.Heff0(env.bra[bd], bd))
+            E0 = vdot(env.bra[bd], env.Heff0(env.bra[bd], bd)) / vdot(env.bra[bd], env.bra[bd])
             f = lambda x: env.Heff0(x, bd) - E0 * x
         else:
             f = lambda x: env.Heff0(x, bd)
@@ -289,7 +289,7 @@ def _update_AA(env, bd, du, opts, opts_svd, normalize=True, subtract_E=False, pr
         opts['ncv'] = env._temp['expmv_ncv'][ibd]
     AA = env.bra.pre_2site(bd, precompute=precompute)
     if subtract_E:
-        E0 = vdot(AA, env.Heff2(AA, bd))
+        E0 = vdot(AA, env.Heff2(AA, bd)) / vdot(AA, AA)
         f = lambda x: env.Heff2(x, bd) - E0 * x
     else:
         f = lambda x: env.Heff2(x, bd)
